@@ -22,7 +22,7 @@ func init() {
 				jn, ws, ps, bs = 4, 6, 6, 3
 			}
 			return []*Run{
-				{H: sym.Harness{Pkg: "meta/jpegmeta", Func: "VerifHarness_C06_JPEG", SetGlobals: map[string]int64{"verifC06MaxChunks": jn}, Workers: 14}, ExpectReach: []string{"jpeg-icc-valid", "jpeg-icc-damaged"}, SamplePaths: 6},
+				{H: sym.Harness{Pkg: "meta/jpegmeta", Func: "VerifHarness_C06_JPEG", SetGlobals: map[string]int64{"verifC06MaxChunks": jn}, Workers: 14, MaxPaths: 200000}, ExpectReach: []string{"jpeg-icc-valid", "jpeg-icc-damaged"}, SamplePaths: 6},
 				{H: sym.Harness{Pkg: "meta/jpegmeta", Func: "VerifHarness_C06_JPEG_None"}, ExpectReach: []string{"jpeg-no-icc"}, SamplePaths: 2},
 				{H: sym.Harness{Pkg: "meta/webpmeta", Func: "VerifHarness_C06_WebP", SetGlobals: map[string]int64{"verifC06Sizes": ws}}, ExpectReach: []string{"webp-noflag", "webp-iccp", "webp-flag-nochunk"}, SamplePaths: 4},
 				{H: sym.Harness{Pkg: "meta/pngmeta", Func: "VerifHarness_C06_PNG", SetGlobals: map[string]int64{"verifC06Shapes": ps}}, ExpectReach: []string{"png-iccp-ok", "png-iccp-corrupt"}, SamplePaths: 4},
